@@ -313,6 +313,25 @@ func checkE2E(c e2eCase) (nt bool, v *verdict) {
 		where := fmt.Sprintf("step %d (%s)", i, vh.JSON(o))
 		h := o.Host % nBackends
 		switch o.Op {
+		case "retype":
+			// the address is announced again with the other type (a fresh object through the public OnSvcHostAdd)
+			m := members[h]
+			if m == nil {
+				continue
+			}
+			m.backup = !m.backup
+			px.P.OnSvcHostAdd([]*host.Host{mk(h, m.backup)})
+			nt = true
+			// connections established to the replaced object may be closed by the proxy; forget them
+			var keep []*liveConn
+			for _, lc := range live {
+				if lc.backend != h {
+					keep = append(keep, lc)
+				} else {
+					lc.c.Close()
+				}
+			}
+			live = keep
 		case "add":
 			if members[h] != nil {
 				continue // the config store never adds a present address again
@@ -497,11 +516,13 @@ func genE2E(t *rapid.T) e2eCase {
 	n := rapid.IntRange(2, 14).Draw(t, "n")
 	for i := 0; i < n; i++ {
 		o := eop{Host: rapid.IntRange(0, nBackends-1).Draw(t, "host")}
-		switch x := rapid.IntRange(0, 15).Draw(t, "op"); {
+		switch x := rapid.IntRange(0, 16).Draw(t, "op"); {
 		case x <= 2:
 			o.Op, o.Backup = "add", rapid.IntRange(0, 2).Draw(t, "backup") == 0
 		case x <= 4:
 			o.Op = "remove"
+		case x == 15:
+			o.Op = "retype"
 		case x == 5:
 			o.Op, o.Hosts = "replace", rapid.SliceOfN(rapid.IntRange(0, 2*nBackends-1), 1, 4).Draw(t, "rhosts")
 		case x <= 7:
